@@ -153,7 +153,8 @@ def run_spec(pid, binpath, spec, tier, seed, rundir, clidir):
                      "-test.parallel=%d" % spec.get("fuzzworkers", NCPU)]
         else:
             args += ["-test.run=" + spec["run"]]
-            s = (seed * 1000003 + sh * 7919 + 1) % (2**63 - 1) or 1
+            import zlib
+            s = (seed * 1000003 + sh * 7919 + zlib.crc32(spec["name"].encode()) * 31 + 1) % (2**63 - 1) or 1
             args += ["-rapid.seed=%d" % s, "-rapid.nofailfile", "-rapid.shrinktime=%ds" % spec.get("shrinktime", 20)]
             if checks:
                 args += ["-rapid.checks=%d" % checks]
